@@ -65,7 +65,9 @@ type Sched struct {
 	Livelock bool
 	log      []string
 	LogOn    bool
-	doneFn   func() bool
+	doneFn   func(noneEnabled bool) bool
+	// Events are the traced calls in execution order.
+	Events []Event
 }
 
 var (
@@ -256,7 +258,7 @@ func (s *Sched) Run() {
 				}
 			}
 		}
-		if s.doneFn != nil && s.doneFn() {
+		if s.doneFn != nil && s.doneFn(len(enabled) == 0) {
 			s.mu.Unlock()
 			return
 		}
@@ -337,7 +339,7 @@ func (s *Sched) choose(n int, runFirst, sel bool, desc string) int {
 }
 
 // doneFn, when set, ends Run as soon as it reports true (checked at quiescence).
-func (s *Sched) SetDone(f func() bool) { s.doneFn = f }
+func (s *Sched) SetDone(f func(noneEnabled bool) bool) { s.doneFn = f }
 
 // release switches to free mode and wakes everything that is parked.
 func (s *Sched) release() {
@@ -517,4 +519,21 @@ func Select(hasDefault bool, cases ...Case) int {
 		cases[chosen].set(rv, ok)
 	}
 	return chosen
+}
+
+// Event is one traced call of the instrumented code (observation only, not a scheduling point).
+type Event struct {
+	Name string
+	Args []any
+}
+
+// Trace records a call; inserted by the instrumenter at the entry of selected functions.
+func Trace(name string, args ...any) {
+	s := schedOf(goid())
+	if s == nil {
+		return
+	}
+	s.mu.Lock()
+	s.Events = append(s.Events, Event{Name: name, Args: args})
+	s.mu.Unlock()
 }
